@@ -54,9 +54,9 @@ func silentLoggers() logging.LoggerFactory {
 }
 
 type c01Mock struct {
-	idx                                                            int
-	close, bindL, bindR, unbindL, unbindR, bindCW, bindCR          int
-	seenW, seenR, seenCW, seenCR                                   int
+	idx                                                   int
+	close, bindL, bindR, unbindL, unbindR, bindCW, bindCR int
+	seenW, seenR, seenCW, seenCR                          int
 }
 
 type c01Env struct {
@@ -748,11 +748,11 @@ func c01Gen(r *Rng, tier string, idx int) Case { //nolint:gocognit,cyclop,mainti
 
 	// ---- streams
 	type gs struct {
-		ssrc          uint32
+		ssrc           uint32
 		nack, rtx, fec bool
-		tw            int
-		seq           int
-		sent          []uint16
+		tw             int
+		seq            int
+		sent           []uint16
 	}
 	nl, nr := r.Range(1, 3), r.Range(1, 3)
 	used := map[uint32]bool{}
